@@ -17,6 +17,7 @@ CONSTANTS Dev,          \* device ids (strings)
           Ref,          \* refresh ids (strings): how many refreshes may be in flight
           MaxRecords,   \* bound on the number of Record calls
           MaxRefreshes, \* bound on the number of RefreshReset calls
+          KeepHist,     \* TRUE only for behaviour generation
           RemergeKeepsNewest \* TRUE: remerge keeps the newer metadata (the repaired code);
                         \* FALSE: the pinned tree, which keeps the current entry's metadata
 
@@ -58,7 +59,7 @@ Record(d) ==
     /\ recorded' = [recorded EXCEPT ![d] = @ + 1]
     /\ lastMeta' = [lastMeta EXCEPT ![d] = clock + 1]
     /\ pmax' = [pmax EXCEPT ![d] = clock + 1]
-    /\ hist' = Append(hist, [a |-> "Record", d |-> d, r |-> ""])
+    /\ hist' = (IF KeepHist THEN Append(hist, [a |-> "Record", d |-> d, r |-> ""]) ELSE hist)
     /\ UNCHANGED <<inflight, delivered, delivMeta, nref, imax>>
 
 RefreshReset(r) ==
@@ -69,7 +70,7 @@ RefreshReset(r) ==
     /\ pending' = Empty
     /\ imax' = [imax EXCEPT ![r] = pmax]
     /\ pmax' = [d \in Dev |-> 0]
-    /\ hist' = Append(hist, [a |-> "RefreshReset", d |-> "", r |-> r])
+    /\ hist' = (IF KeepHist THEN Append(hist, [a |-> "RefreshReset", d |-> "", r |-> r]) ELSE hist)
     /\ UNCHANGED <<recorded, delivered, delivMeta, lastMeta, clock>>
 
 UploadOK(r) ==
@@ -77,7 +78,7 @@ UploadOK(r) ==
     /\ delivered' = [d \in Dev |-> delivered[d] + inflight[r].m[d].n]
     /\ delivMeta' = [d \in Dev |-> IF inflight[r].m[d].n > 0 THEN inflight[r].m[d].meta ELSE delivMeta[d]]
     /\ inflight' = [inflight EXCEPT ![r] = Idle]
-    /\ hist' = Append(hist, [a |-> "UploadOK", d |-> "", r |-> r])
+    /\ hist' = (IF KeepHist THEN Append(hist, [a |-> "UploadOK", d |-> "", r |-> r]) ELSE hist)
     /\ imax' = [imax EXCEPT ![r] = [d \in Dev |-> 0]]
     /\ UNCHANGED <<pending, recorded, lastMeta, clock, nref, pmax>>
 
@@ -96,7 +97,7 @@ UploadFail(r) ==
     /\ inflight' = [inflight EXCEPT ![r] = Idle]
     /\ pmax' = [d \in Dev |-> IF imax[r][d] > pmax[d] THEN imax[r][d] ELSE pmax[d]]
     /\ imax' = [imax EXCEPT ![r] = [d \in Dev |-> 0]]
-    /\ hist' = Append(hist, [a |-> "UploadFail", d |-> "", r |-> r])
+    /\ hist' = (IF KeepHist THEN Append(hist, [a |-> "UploadFail", d |-> "", r |-> r]) ELSE hist)
     /\ UNCHANGED <<recorded, delivered, delivMeta, lastMeta, clock, nref>>
 
 Next == \/ \E d \in Dev : Record(d)
